@@ -19,10 +19,10 @@ async-aware filters that are passed through the data function ``ai(...)``: on th
 side with wrap=false) ``ai(x)`` is a plain generator over x, with wrap=true it is an async generator over x.
 
 Oracle.  Two environments that differ only in ``enable_async`` load the same sources.  The sync environment is
-observed at ``render`` and ``"".join(generate())``; the async one at ``render`` (asyncio.run inside jinja),
-``render_async`` and ``generate_async`` (event loop owned by the check, closed before it returns) and
-``"".join(generate())`` -- with the case's data flavour, and ``render_async`` additionally with the plain data
-when wrap=true.  Every async observation must equal the sync one: same text (native environments: same value and
+observed at ``render`` and ``"".join(generate())``; the async one at ``render_async`` and ``generate_async`` (event
+loop owned by the check, closed before it returns) for every data, at ``render`` (asyncio.run inside jinja) for the
+first data of every entry and at ``"".join(generate())`` for the first data of every third case -- with the case's
+data flavour, and ``render_async`` additionally with the plain data when wrap=true.  Every async observation must equal the sync one: same text (native environments: same value and
 type; only render / render_async) or an exception of the same class.  Template sets additionally compare
 ``str(make_module(...))`` / exported names with ``make_module_async``.
 
@@ -31,7 +31,9 @@ PIPELINES (family "pipe"): {"src": [kind, arg], "stages": [[filter, {params}], .
 template.  The *result kind* of every pipeline prefix is tracked statically (seq / sgen = sync iterator on both
 sides / lazy = async generator in async mode (map select reject selectattr rejectattr) / agen = async iterable
 supplied by wrapped data); a lazy or agen value that reaches a consumer which is not async-aware is the input
-class of known finding F27 and is counted as excluded (never executed).
+class of known finding F27 and is counted as excluded (never executed).  Known finding F41 (async unique / slice
+list their input when they are called, the sync ones when they are iterated): a pipeline in which listing the input
+of a unique / slice stage raises (decided in the sync environment before anything is judged) is excluded, counted.
 """
 import asyncio
 import copy
@@ -277,11 +279,11 @@ async def _collect(agen):
     return [x async for x in agen]
 
 
-def _observe(env, name, entry_point, data, loop, native):
+def _observe(env, name, entry_point, data, loop, native, tglobals=None):
     """-> ("ok", text | canonical native value) | ("err", exception class name, message)"""
     st = _state
     try:
-        t = env.get_template(name)
+        t = env.get_template(name, globals=tglobals)
         if entry_point == "render":
             v = t.render(data)
         elif entry_point == "render_async":
@@ -309,17 +311,22 @@ def _same(a, b):
     return a[:2] == b[:2]
 
 
+def _drain(loop):
+    for _ in range(6):
+        loop.run_until_complete(asyncio.sleep(0))
+        pending = asyncio.all_tasks(loop)
+        if not pending:
+            return
+        loop.run_until_complete(asyncio.gather(*pending, return_exceptions=True))
+
+
 def _close_loop(loop):
     """Let the finalizer tasks of abandoned async generators (e.g. the rest of a lazy filter after |first) finish,
     then close the loop: nothing of the case outlives check_case."""
     try:
-        for _ in range(4):
-            loop.run_until_complete(asyncio.sleep(0))
-            pending = asyncio.all_tasks(loop)
-            if not pending:
-                break
-            loop.run_until_complete(asyncio.gather(*pending, return_exceptions=True))
+        _drain(loop)
         loop.run_until_complete(loop.shutdown_asyncgens())
+        _drain(loop)
     finally:
         loop.close()
 
@@ -327,7 +334,8 @@ def _close_loop(loop):
 class _Plan:
     """What one family adapter hands to the runner."""
 
-    def __init__(self, templates, entries, makers, globs=None, modules=False, labels=(), prechecks=()):
+    def __init__(self, templates, entries, makers, globs=None, modules=False, labels=(), prechecks=(), tglobals=None):
+        self.tglobals = tglobals        # template-level globals handed to get_template (reach imported modules)
         self.prechecks = list(prechecks)  # templates that must render on the sync side, else the case is Excluded
         self.templates = templates      # {name: source}
         self.entries = entries          # template names to render
@@ -353,7 +361,8 @@ def _run_plan(case, plan):
     try:
         for name in plan.entries:
             for di, mk in enumerate(plan.makers):
-                ref = {"render": _observe(senv, name, "render", mk(senv, False), None, native)}
+                tg = plan.tglobals
+                ref = {"render": _observe(senv, name, "render", mk(senv, False), None, native, tg)}
                 r = ref["render"]
                 if r[0] == "ok" and not native and (len(r[1]) > MAX_OUT or _ADDR.search(r[1])):
                     labels.add("data_discarded_addr_or_size")
@@ -363,7 +372,7 @@ def _run_plan(case, plan):
                     continue
                 labels.add("sync_ok" if r[0] == "ok" else "sync_err_" + r[1])
                 if not native:
-                    ref["generate"] = _observe(senv, name, "generate", mk(senv, False), None, native)
+                    ref["generate"] = _observe(senv, name, "generate", mk(senv, False), None, native, tg)
                 # render() / generate() of an async environment start an event loop of their own (asyncio.run, ~2 ms of
                 # mostly system time): render() is observed on the first data of every entry, generate() on the first
                 # data of every third case (a pure function of the case), the *_async entry points on every data
@@ -377,11 +386,11 @@ def _run_plan(case, plan):
                 if wrap:
                     points.append(("render_async", False))
                 if plan.modules:
-                    ref["module"] = _observe(senv, name, "module", mk(senv, False), None, native)
+                    ref["module"] = _observe(senv, name, "module", mk(senv, False), None, native, tg)
                     points.append(("module_async", wrap))
                 for ep, flavour in points:
                     want = ref[{"render_async": "render", "generate_async": "generate", "module_async": "module"}.get(ep, ep)]
-                    got = _observe(aenv, name, ep, mk(aenv, flavour), loop, native)
+                    got = _observe(aenv, name, ep, mk(aenv, flavour), loop, native, tg)
                     compared += 1
                     if not _same(want, got):
                         raise core.Violation(
@@ -698,7 +707,7 @@ N_FOR_VARIANTS = 11
 
 LIBS = {
     "inc": "[{{ x }}{{ loop.index if loop is defined }}]",
-    "lib": "{% macro lm(v) %}<{{ v }}|{{ x }}|{{ caller() if caller is defined }}>{% endmacro %}{% set libvar = 'L' ~ x %}",
+    "lib": "{% macro lm(v) %}<{{ v }}|{{ x }}|{{ tg }}{{ caller() if caller is defined }}>{% endmacro %}{% set libvar = 'L' ~ x ~ tg %}",
 }
 
 
@@ -944,7 +953,7 @@ def _plan_pipe(case, allow_known=False):
         kind = "lazy" if name in LAZY else "other"
     if kind == "lazy":
         labels.add("lazy_into_" + p["sink"][0])
-    return _Plan(templates, ["main"], [mk], labels=labels, prechecks=prechecks)
+    return _Plan(templates, ["main"], [mk], labels=labels, prechecks=prechecks, tglobals={"tg": "TG"})
 
 
 # ---------------------------------------------------------------------------------------------------------
@@ -1209,7 +1218,7 @@ def _pipe_cases():
                 elif t == "list" and chance(60):
                     v = pick([5, 7])
                 else:
-                    v = pick([0, 1, 2, 3, 4, 8, 9, 10, 1, 2, 3, 5])
+                    v = pick([0, 1, 2, 3, 4, 8, 9, 10, 1, 2, 3, 5, 9, 10])
                 return ["for", {"v": v}]
             return [k, {}]
 
